@@ -177,3 +177,37 @@ def write_replay(f: Finding) -> str:
     with open(p, "w") as fh:
         json.dump(asdict(f), fh, indent=1)
     return p
+
+
+class NullRule:
+    def check(self, *a, **k):
+        return True
+
+    def good(self, *a, **k):
+        pass
+
+    def violation(self, *a, **k):
+        pass
+
+
+class BorrowCtx:
+    """Runs another property's rules and keeps only the named ones, re-filed under this property's rule id."""
+
+    def __init__(self, ctx, keep: dict):
+        self._ctx, self._keep = ctx, keep
+
+    def rule(self, rid, desc, floor=1):
+        if rid in self._keep:
+            return self._ctx.rule(self._keep[rid], f"{desc} (the obligations of {rid})", floor)
+        return NullRule()
+
+    def assume(self, *a, **k):
+        pass
+
+    def __getattr__(self, name):
+        return getattr(self._ctx, name)
+
+    def __setattr__(self, name, value):
+        if name in ("_ctx", "_keep"):
+            object.__setattr__(self, name, value)
+        # attributes the borrowed rules set on their own context (paths_enumerated, ...) are dropped
